@@ -27,6 +27,7 @@ public:
         for (size_t i = 0; i < o.files.size(); i++) { h.str(o.files[i].name.c_str()); h.str(normalizeAddrs(o.files[i].data).c_str()); }
         h.u64((uint64_t)o.ret);
         r.hash = h.h;
+        if (getenv("RUNSIM_HASHDUMP")) { fprintf(stderr, "==== HASHDUMP %llu\n", (unsigned long long)h.h); for (size_t i = 0; i < o.fails.size(); i++) fprintf(stderr, "F %s:%zu %s\n", o.fails[i].file.c_str(), o.fails[i].line, normalizeAddrs(o.fails[i].msg).c_str()); fprintf(stderr, "C %s\n", normalizeAddrs(o.console).c_str()); for (size_t i = 0; i < o.files.size(); i++) fprintf(stderr, "FILE %s\n%s\n", o.files[i].name.c_str(), normalizeAddrs(o.files[i].data).c_str()); }
         r.nontrivial = !o.fails.empty() || o.ret != 0;
         r.sim_ms = (int64_t)(simClock().now - (uint64_t)d.pi("clock_start"));
         if (r.sim_ms < 0 || r.sim_ms > 1000000000000LL) r.sim_ms = 0;
